@@ -1,6 +1,85 @@
-//! polymod operations (stub; filled in by the area owner).
+//! C08 / C11 / C12: polynomials modulo p (src/poly_mod/*), BigInt instantiation.
+//! Randomised operations install the scripted generator and answer
+//! `[ok value consumed-bytes]` or `[panic class consumed-bytes]`.
+use crate::ops::poly::{tzp, zp};
 use crate::term::*;
+use num::integer::ExtendedGcd;
+use num::{BigInt, Integer};
+use rust_number_theory::poly_mod::{self, factorize_mod_p_verif as stages};
+use rust_number_theory::polynomial::Polynomial;
+use rust_number_theory::verif_hooks;
+use std::panic::{catch_unwind, AssertUnwindSafe};
 
-pub fn dispatch(_op: &str, _a: &[Term]) -> Option<Term> {
-    None
+fn tpairs(v: &[(Polynomial<BigInt>, usize)]) -> Term {
+    tl(v.iter().map(|(g, e)| tl(vec![tzp(g), ti(*e as u64)])).collect())
+}
+fn tpolys(v: &[Polynomial<BigInt>]) -> Term {
+    tl(v.iter().map(tzp).collect())
+}
+
+/// Runs `f` with the scripted generator installed; the bytes it consumed are part of the answer.
+fn with_rng(seed: &Term, script: &Term, f: impl FnOnce() -> Term) -> Term {
+    verif_hooks::install(seed.u64(), script.bytes());
+    match catch_unwind(AssertUnwindSafe(f)) {
+        Ok(t) => tl(vec![tid("ok"), t, tbytes(&verif_hooks::take_log())]),
+        Err(_) => {
+            let msg = crate::LAST_PANIC.with(|p| p.borrow().clone());
+            tl(vec![tid("panic"), tid(crate::classify(&msg)), tbytes(&verif_hooks::take_log())])
+        }
+    }
+}
+
+pub fn dispatch(op: &str, a: &[Term]) -> Option<Term> {
+    Some(match op {
+        "pm_modpow" => tb(&poly_mod::modpow::<BigInt>(&a[0].int(), &a[1].int(), &a[2].int())),
+        "pm_modinv" => tb(&poly_mod::modinv::<BigInt>(&a[0].int(), &a[1].int())),
+        "pm_egcd" => {
+            let ExtendedGcd { gcd, x, y } = a[0].int().extended_gcd(&a[1].int());
+            tl(vec![tb(&gcd), tb(&x), tb(&y)])
+        }
+        "pm_poly_mod" => tzp(&poly_mod::poly_mod::<BigInt>(&zp(&a[0]), &a[1].int())),
+        "pm_poly_div" => tzp(&poly_mod::poly_div::<BigInt>(&zp(&a[0]), &a[1].int())),
+        "pm_poly_mul" => tzp(&poly_mod::poly_mul::<BigInt>(&zp(&a[0]), &a[1].int())),
+        "pm_poly_mod_sub" => tzp(&poly_mod::poly_mod_sub::<BigInt>(&zp(&a[0]), &zp(&a[1]), &a[2].int())),
+        "pm_differential" => tzp(&poly_mod::differential::<BigInt>(&zp(&a[0]), &a[1].int())),
+        // an optional 4th argument (profile) is only read by the model
+        "pm_poly_of_mod" => tb(&poly_mod::poly_of_mod::<BigInt>(&zp(&a[0]), &a[1].int(), &a[2].int())),
+        "pm_poly_divrem" => {
+            let (q, r) = poly_mod::poly_divrem::<BigInt>(&zp(&a[0]), &zp(&a[1]), &a[2].int());
+            tl(vec![tzp(&q), tzp(&r)])
+        }
+        "pm_poly_gcd" => tzp(&poly_mod::poly_gcd::<BigInt>(&zp(&a[0]), &zp(&a[1]), &a[2].int())),
+        "pm_poly_ext_gcd" => {
+            let (g, u, v) = poly_mod::poly_ext_gcd::<BigInt>(&zp(&a[0]), &zp(&a[1]), &a[2].int());
+            tl(vec![tzp(&g), tzp(&u), tzp(&v)])
+        }
+        "pm_coprime_witness" => {
+            let (u, v) = poly_mod::poly_coprime_witness::<BigInt>(&zp(&a[0]), &zp(&a[1]), &a[2].int());
+            tl(vec![tzp(&u), tzp(&v)])
+        }
+        "pm_poly_modpow" => tzp(&poly_mod::poly_modpow::<BigInt>(&zp(&a[0]), &a[1].int(), &zp(&a[2]), &a[3].int())),
+        "pm_divide_by_x_a" => tzp(&poly_mod::divide_by_x_a::<BigInt>(&zp(&a[0]), &a[1].int(), &a[2].int())),
+        // ---- C08
+        "pm_squarefree" => tpairs(&stages::squarefree(&zp(&a[0]), &a[1].int(), a[2].usize())),
+        "pm_degree" => tpairs(&stages::degree(&zp(&a[0]), &a[1].int())),
+        // pm_final_split f p d seed script
+        "pm_final_split" => with_rng(&a[3], &a[4], || tpolys(&stages::final_split(&zp(&a[0]), &a[1].int(), a[2].usize()))),
+        // pm_factorize f p pusize seed script
+        "pm_factorize" => with_rng(&a[3], &a[4], || {
+            tpairs(&poly_mod::factorize_mod_p::<BigInt>(&zp(&a[0]), &a[1].int(), a[2].usize()))
+        }),
+        // ---- C11
+        "pm_hensel_lift" => {
+            let (a1, b1, qr) = poly_mod::hensel_lift::<BigInt>(
+                &a[0].int(), &a[1].int(), &zp(&a[2]), &zp(&a[3]), &zp(&a[4]), &zp(&a[5]), &zp(&a[6]));
+            tl(vec![tzp(&a1), tzp(&b1), tb(&qr)])
+        }
+        "pm_lift_factorization" => {
+            let fs: Vec<Polynomial<BigInt>> = a[3].list().iter().map(zp).collect();
+            tpolys(&poly_mod::lift_factorization::<BigInt>(&a[0].int(), a[1].u32(), &zp(&a[2]), &fs))
+        }
+        // ---- C12: pm_roots f p seed script
+        "pm_roots" => with_rng(&a[2], &a[3], || tints(&poly_mod::find_linear_factors::<BigInt>(&zp(&a[0]), a[1].int()))),
+        _ => return None,
+    })
 }
